@@ -16,6 +16,8 @@ VOCAB = [
     "less and except", "except", "insofar as", "including", "from the surface to the base of", "wellbore", "well",
     "limited to depths", "That part lying north of the river", "Beginning at a point", "thence north 40 rods",
     "5th P.M.", "of the 6th Principal Meridian", "1", "14", "97", "154", "1000", "0", "38.12",
+    "Northeast", "North East", "South-West", "Southwest", "East Half", "West Half of the", "N/2 of the", "E½", "S2", "NE", "SW",
+    "Quarter", "Half", "One Quarter", "1/4", "1/2", "of the", "\r\n", "\r",
     "\n", "\n\n", "\t", "  ", "½", "¼", "é", "١٤", "ＳＥＣ", " ", "​", "QXJVZK", "XX", "___z", "XXXz",
 ]
 LAYOUTS = ["TRS_desc", "desc_STR", "S_desc_TR", "TR_desc_S", "copy_all"]
@@ -84,5 +86,5 @@ def rand_text(rng):
         if w == "." and toks and toks[-1] == ".":
             continue
         toks.append(w)
-    sep = rng.choice([" ", " ", " ", "", "\n"])
+    sep = rng.choice([" ", " ", " ", " ", "", "\n", "\r\n"])
     return sep.join(toks)
